@@ -477,7 +477,12 @@ func (r *reader) initNodes(tr io.Reader) error {
 				if md[lastEntBucketID] == nil {
 					md[lastEntBucketID] = &metadataEntry{}
 				}
-				ce := chunkEntry{ent.Offset, ent.ChunkOffset, ent.ChunkSize, ent.ChunkDigest, ent.InnerOffset}
+				chunkDigest := ent.ChunkDigest
+				if chunkDigest == "" {
+					// NOTE* "reg" can lack ChunkDigest (e.g. legacy stargz); report its Digest, as the memory store does
+					chunkDigest = ent.Digest
+				}
+				ce := chunkEntry{ent.Offset, ent.ChunkOffset, ent.ChunkSize, chunkDigest, ent.InnerOffset}
 				md[lastEntBucketID].chunks = append(md[lastEntBucketID].chunks, ce)
 				if _, ok := st[ent.Offset]; !ok {
 					st[ent.Offset] = make(map[int64]uint32)
